@@ -312,3 +312,8 @@ mut("C12 converged iterate corrected once more before it is returned", [(GAM, " 
 mut("C12 tail shortcut threshold raised to 1e-12", [(GAM, "            if b <= 1.0e-28 {", "            if b <= 1.0e-12 {")], C12="C12-f")
 mut("C12 N: exponential shortcut window narrowed, abs form", [(GAM, "    if (1.0 - 1.0e-8..=1.0 + 1.0e-8).contains(&a) {", "    if (a - 1.0).abs() <= 1.0e-9 {")], C12=None)
 mut("C12 N: shortcut written with two comparisons", [(GAM, "    if (1.0 - 1.0e-8..=1.0 + 1.0e-8).contains(&a) {", "    if a >= 1.0 - 1.0e-8 && a <= 1.0 + 1.0e-8 {")], C12=None)
+mut("C12 iterate returned early once the step is small", [(GAM, "        let t_n = err / r;\n", "        let t_n = err / r;\n        if t_n.abs() < 1.0e-3 {\n            return x_n;\n        }\n")], C12="C12-f")
+mut("C12 N: Newton loop as a while loop with a counter", [(GAM, "    for _ in 0..max_n_iter {\n        let r =", "    let mut n_iter = 0;\n    while n_iter < max_n_iter {\n        n_iter += 1;\n        let r =")], C12=None)
+mut("C12 sample passes a convergence tolerance of 5e8 ulps", [(SAM, "        &const_builder.from_f64(5.0),\n    )\n    .map_err(SamplingError::GammaError)?;", "        &const_builder.from_f64(5.0e8),\n    )\n    .map_err(SamplingError::GammaError)?;")], C12="C12-f")
+mut("C12 lower-tail error measured against q instead of p", [(GAM, "            gamma_lr(a, x_n) - p\n", "            gamma_lr(a, x_n) - q\n")], C12="C12-f")
+mut("C12 N: error with commuted subtraction", [(GAM, "            gamma_lr(a, x_n) - p\n", "            -(p - gamma_lr(a, x_n))\n")], C12=None)
